@@ -1,5 +1,1048 @@
 (** Proofs about Model/Comb.v (pkg/bruteforcer/indexes.go). *)
 From CSS Require Import Lib.Base Model.Comb.
+From Coq Require Import ZifyBool ZifyNat Sorting.Sorted Arith.Wf_nat.
 
 Lemma next_empty m : next m [] = (false, []).
 Proof. reflexivity. Qed.
+
+(** * 1. Binomial coefficients *)
+
+Lemma binom_n_0 n : binom n 0 = 1.
+Proof. destruct n; reflexivity. Qed.
+Lemma binom_0_S k : binom 0 (S k) = 0.
+Proof. reflexivity. Qed.
+Lemma binom_S_S n k : binom (S n) (S k) = binom n k + binom n (S k).
+Proof. reflexivity. Qed.
+
+Lemma binom_nonneg n : forall k, 0 <= binom n k.
+Proof.
+  induction n; intros [|k]; rewrite ?binom_n_0, ?binom_0_S, ?binom_S_S; try lia.
+  pose proof (IHn k); pose proof (IHn (S k)); lia.
+Qed.
+
+Lemma binom_gt : forall n k, (n < k)%nat -> binom n k = 0.
+Proof.
+  induction n; intros [|k] H; try lia.
+  - reflexivity.
+  - rewrite binom_S_S, !IHn by lia. reflexivity.
+Qed.
+
+Lemma binom_diag : forall n, binom n n = 1.
+Proof.
+  induction n. - reflexivity.
+  - rewrite binom_S_S, IHn, binom_gt by lia. reflexivity.
+Qed.
+
+Lemma binom_1 : forall n, binom n 1 = Z.of_nat n.
+Proof.
+  induction n. - reflexivity.
+  - rewrite binom_S_S, IHn, binom_n_0. lia.
+Qed.
+
+Lemma binom_mono_S n k : binom n k <= binom (S n) k.
+Proof.
+  destruct k. - rewrite !binom_n_0. lia.
+  - rewrite binom_S_S. pose proof (binom_nonneg n k). lia.
+Qed.
+
+Lemma binom_mono n n' k : (n <= n')%nat -> binom n k <= binom n' k.
+Proof.
+  induction 1. - lia.
+  - pose proof (binom_mono_S m k). lia.
+Qed.
+
+Lemma binom_pos : forall n k, (k <= n)%nat -> 0 < binom n k.
+Proof.
+  induction n; intros [|k] H; rewrite ?binom_n_0; try lia.
+  rewrite binom_S_S. pose proof (IHn k ltac:(lia)). pose proof (binom_nonneg n (S k)). lia.
+Qed.
+
+(** The absorption identity (k+1) C(n+1,k+1) = (n+1) C(n,k). *)
+Lemma binom_absorb : forall n k,
+  Z.of_nat (S k) * binom (S n) (S k) = Z.of_nat (S n) * binom n k.
+Proof.
+  induction n; intro k.
+  - rewrite binom_S_S. destruct k.
+    + reflexivity.
+    + rewrite !binom_0_S. lia.
+  - rewrite binom_S_S. destruct k.
+    + rewrite binom_n_0. pose proof (IHn O) as H. rewrite binom_n_0 in H. lia.
+    + pose proof (IHn k) as H1. pose proof (IHn (S k)) as H2.
+      rewrite (binom_S_S n k) in *.
+      set (A := binom n k) in *. set (B := binom n (S k)) in *.
+      set (C := binom (S n) (S (S k))) in *.
+      rewrite !Nat2Z.inj_succ in *. nia.
+Qed.
+
+(** The executable multiplicative formula is Pascal's rule. *)
+Lemma binom_fast_eq : forall k n, binom_fast (Z.of_nat n) k = binom n k.
+Proof.
+  induction k; intro n.
+  - rewrite binom_n_0. reflexivity.
+  - cbn [binom_fast]. destruct n.
+    + reflexivity.
+    + replace (Z.of_nat (S n) <=? 0) with false by lia.
+      replace (Z.of_nat (S n) - 1) with (Z.of_nat n) by lia.
+      rewrite IHk.
+      replace (binom n k * Z.of_nat (S n)) with (binom (S n) (S k) * Z.of_nat (S k))
+        by (pose proof (binom_absorb n k); lia).
+      apply Z.div_mul. lia.
+Qed.
+
+Lemma binom_fast_Z n k : 0 <= n -> binom_fast n k = binom (Z.to_nat n) k.
+Proof. intro H. rewrite <- binom_fast_eq, Z2Nat.id by lia. reflexivity. Qed.
+
+Definition I63 : Z := 9223372036854775808. (* 2^63 *)
+
+Lemma I63_pow : I63 = 2 ^ 63. Proof. reflexivity. Qed.
+Lemma W64_pow : W64 = 2 ^ 64. Proof. reflexivity. Qed.
+Lemma W64_val : W64 = 18446744073709551616. Proof. reflexivity. Qed.
+
+Lemma binom64_mod n k : 0 <= n < I63 -> 0 <= k ->
+  binom64 n k = binom (Z.to_nat n) (Z.to_nat k) mod W64.
+Proof.
+  unfold I63. intros Hn Hk. unfold binom64.
+  replace (n <? 0) with false by lia. replace (k <? 0) with false by lia.
+  replace (9223372036854775808 <=? n) with false by lia. cbn [orb].
+  rewrite wrap64_mod, binom_fast_Z by lia. reflexivity.
+Qed.
+
+(** [bz]: binomial with a [Z] upper argument, as it appears in [rank]. *)
+Definition bz (n : Z) (k : nat) : Z := binom (Z.to_nat n) k.
+
+Lemma bz_0 n : bz n 0 = 1.
+Proof. apply binom_n_0. Qed.
+Lemma bz_nonneg n k : 0 <= bz n k.
+Proof. apply binom_nonneg. Qed.
+Lemma bz_mono n n' k : n <= n' -> bz n k <= bz n' k.
+Proof. intro. apply binom_mono. lia. Qed.
+Lemma bz_pascal n k : 0 <= n -> bz (n + 1) (S k) = bz n k + bz n (S k).
+Proof.
+  intro. unfold bz. replace (Z.to_nat (n + 1)) with (S (Z.to_nat n)) by lia.
+  apply binom_S_S.
+Qed.
+Lemma bz_diag k : bz (Z.of_nat k) k = 1.
+Proof. unfold bz. rewrite Nat2Z.id. apply binom_diag. Qed.
+
+(** * 2. Valid combinations, [seqZ], lexicographic order *)
+
+(** [Inc lo m s]: [s] is strictly increasing with every element in [(lo, m]]. *)
+Fixpoint Inc (lo m : Z) (s : list Z) : Prop :=
+  match s with
+  | [] => True
+  | x :: t => lo < x <= m /\ Inc x m t
+  end.
+
+Definition Valid (m : Z) (s : list Z) : Prop := Inc (-1) m s.
+
+Lemma Inc_iff lo m s :
+  Inc lo m s <-> StronglySorted Z.lt s /\ Forall (fun x => lo < x <= m) s.
+Proof.
+  revert lo. induction s as [|x t IH]; intro lo; cbn [Inc].
+  - split; [intros _; split; constructor | trivial].
+  - rewrite IH. split.
+    + intros (Hx & Hs & Hf). split.
+      * constructor; [exact Hs|]. eapply Forall_impl; [|exact Hf]. cbn. lia.
+      * constructor; [exact Hx|]. eapply Forall_impl; [|exact Hf]. cbn. lia.
+    + intros (Hs & Hf). inversion Hs as [|? ? Hs' Hlt]; subst.
+      inversion Hf as [|? ? Hx Hf']; subst. repeat split; try lia; try assumption.
+      rewrite Forall_forall in *. intros y Hy. specialize (Hlt y Hy). specialize (Hf' y Hy). lia.
+Qed.
+
+(** The textbook reading of [Valid]. *)
+Lemma Valid_iff m s :
+  Valid m s <-> StronglySorted Z.lt s /\ Forall (fun x => 0 <= x <= m) s.
+Proof.
+  unfold Valid. rewrite Inc_iff. split; intros (Hs & Hf); split; try assumption;
+    (eapply Forall_impl; [|exact Hf]); cbn; lia.
+Qed.
+
+Lemma Inc_weaken lo lo' m s : lo' <= lo -> Inc lo m s -> Inc lo' m s.
+Proof. destruct s; cbn [Inc]; [trivial|]. intros ? (? & ?). split; [lia|assumption]. Qed.
+
+Lemma Inc_len : forall t x lo m, Inc lo m (x :: t) -> x + Z.of_nat (length t) <= m.
+Proof.
+  induction t as [|y t IH]; intros x lo m H.
+  - cbn in *. lia.
+  - destruct H as (Hx & Ht). pose proof (IH _ _ _ Ht). destruct Ht. cbn [length]. lia.
+Qed.
+
+Lemma seqZ_length : forall n v, length (seqZ v n) = n.
+Proof. induction n; intro v; cbn [seqZ length]; [reflexivity | now rewrite IHn]. Qed.
+
+Lemma seqZ_snoc : forall n v, seqZ v (S n) = seqZ v n ++ [v + Z.of_nat n].
+Proof.
+  induction n; intro v.
+  - cbn. now rewrite Z.add_0_r.
+  - change (seqZ v (S (S n))) with (v :: seqZ (v + 1) (S n)).
+    rewrite IHn. cbn [seqZ app]. do 3 f_equal. lia.
+Qed.
+
+Lemma last_cons {A} : forall p (x d : A), last (x :: p) d = last p x.
+Proof.
+  induction p as [|y p IH]; intros x d; [reflexivity|].
+  change (last (x :: y :: p) d) with (last (y :: p) d). now rewrite !IH.
+Qed.
+
+Lemma Inc_seqZ : forall n v lo m,
+  lo < v -> v + Z.of_nat n <= m + 1 -> Inc lo m (seqZ v n).
+Proof.
+  induction n; intros v lo m Hlo Hm; cbn [seqZ Inc]; [trivial|].
+  split; [lia|]. apply IHn; lia.
+Qed.
+
+(** A valid tail that fills the room up to [m] completely is the top series. *)
+Lemma Inc_top : forall s lo m,
+  Inc lo m s -> m <= lo + Z.of_nat (length s) -> s = seqZ (lo + 1) (length s).
+Proof.
+  induction s as [|x t IH]; intros lo m H Hl; [reflexivity|].
+  pose proof (Inc_len _ _ _ _ H) as Hlen. destruct H as (Hx & Ht).
+  cbn [length seqZ] in *. assert (x = lo + 1) by lia. subst x.
+  f_equal. apply (IH _ m); [assumption | lia].
+Qed.
+
+Lemma Inc_app : forall p q lo m,
+  Inc lo m (p ++ q) <-> Inc lo m p /\ Inc (last p lo) m q.
+Proof.
+  induction p as [|x p IH]; intros q lo m.
+  - cbn. tauto.
+  - rewrite last_cons. cbn [app Inc]. rewrite IH. tauto.
+Qed.
+
+(** Lexicographic order on tuples of the same length. *)
+Inductive lex : list Z -> list Z -> Prop :=
+| lex_head x y s t : x < y -> length s = length t -> lex (x :: s) (y :: t)
+| lex_tail x s t : lex s t -> lex (x :: s) (x :: t).
+
+Lemma lex_length s t : lex s t -> length s = length t.
+Proof. induction 1; cbn [length]; congruence. Qed.
+
+Lemma lex_irrefl s : ~ lex s s.
+Proof. induction s as [|x s IH]; intro H; inversion H; subst; [lia | auto]. Qed.
+
+Lemma lex_trans s t u : lex s t -> lex t u -> lex s u.
+Proof.
+  intro H. revert u. induction H; intros u Hu; inversion Hu; subst.
+  - apply lex_head; [lia | congruence].
+  - apply lex_head; [lia |]. apply lex_length in H4. congruence.
+  - apply lex_head; [lia |]. apply lex_length in H. congruence.
+  - apply lex_tail. auto.
+Qed.
+
+Lemma lex_total : forall s t, length s = length t -> lex s t \/ s = t \/ lex t s.
+Proof.
+  induction s as [|x s IH]; intros [|y t] Hl; try discriminate.
+  - auto.
+  - injection Hl as Hl. destruct (Z.lt_total x y) as [H | [H | H]].
+    + left. now apply lex_head.
+    + subst y. destruct (IH t Hl) as [H | [H | H]].
+      * left. now apply lex_tail.
+      * right. left. now subst.
+      * right. right. now apply lex_tail.
+    + right. right. now apply lex_head.
+Qed.
+
+Lemma lex_app p s t : lex s t -> lex (p ++ s) (p ++ t).
+Proof. intro. induction p; [assumption | now apply lex_tail]. Qed.
+
+(** The series [lo+1, lo+2, ...] is the least valid tuple above [lo]. *)
+Lemma seqZ_least : forall s lo m,
+  Inc lo m s -> s = seqZ (lo + 1) (length s) \/ lex (seqZ (lo + 1) (length s)) s.
+Proof.
+  induction s as [|x t IH]; intros lo m H; [left; reflexivity|].
+  destruct H as (Hx & Ht). cbn [length seqZ].
+  destruct (Z.eq_dec x (lo + 1)) as [->|Hne].
+  - destruct (IH _ _ Ht) as [E | L].
+    + left. now rewrite <- E.
+    + right. now apply lex_tail.
+  - right. apply lex_head; [lia|]. now rewrite seqZ_length.
+Qed.
+
+(** * 3. rank *)
+
+Lemma rank_aux_cons m prev v t :
+  rank_aux m prev (v :: t) =
+  bz (m - prev) (S (length t)) - bz (m + 1 - v) (S (length t)) + rank_aux m v t.
+Proof. reflexivity. Qed.
+
+Lemma rank_aux_bounds : forall s m prev,
+  Inc prev m s -> 0 <= rank_aux m prev s < bz (m - prev) (length s).
+Proof.
+  induction s as [|v t IH]; intros m prev H.
+  - cbn [rank_aux length]. rewrite bz_0. lia.
+  - rewrite rank_aux_cons. destruct H as (Hv & Ht). specialize (IH _ _ Ht).
+    cbn [length].
+    pose proof (bz_pascal (m - v) (length t) ltac:(lia)) as P.
+    replace (m - v + 1) with (m + 1 - v) in P by lia.
+    pose proof (bz_mono (m + 1 - v) (m - prev) (S (length t)) ltac:(lia)).
+    pose proof (bz_nonneg (m - v) (S (length t))).
+    lia.
+Qed.
+
+Lemma rank_lex_mono : forall s t, lex s t -> forall m prev,
+  Inc prev m s -> Inc prev m t -> rank_aux m prev s < rank_aux m prev t.
+Proof.
+  induction 1 as [x y s t Hxy Hl | x s t L IH]; intros m prev Hs Ht.
+  - rewrite !rank_aux_cons. destruct Hs as (Hx & Hs). destruct Ht as (Hy & Ht).
+    pose proof (rank_aux_bounds _ _ _ Hs) as Bs. pose proof (rank_aux_bounds _ _ _ Ht) as Bt.
+    rewrite <- Hl in *.
+    pose proof (bz_pascal (m - x) (length s) ltac:(lia)) as P.
+    replace (m - x + 1) with (m + 1 - x) in P by lia.
+    pose proof (bz_mono (m + 1 - y) (m - x) (S (length s)) ltac:(lia)).
+    lia.
+  - rewrite !rank_aux_cons. rewrite (lex_length _ _ L).
+    destruct Hs as (_ & Hs). destruct Ht as (_ & Ht). specialize (IH _ _ Hs Ht). lia.
+Qed.
+
+Lemma rank_aux_inj m prev s t :
+  Inc prev m s -> Inc prev m t -> length s = length t ->
+  rank_aux m prev s = rank_aux m prev t -> s = t.
+Proof.
+  intros Hs Ht Hl E. destruct (lex_total s t Hl) as [L | [L | L]]; [|assumption|].
+  - pose proof (rank_lex_mono _ _ L _ _ Hs Ht). lia.
+  - pose proof (rank_lex_mono _ _ L _ _ Ht Hs). lia.
+Qed.
+
+Lemma rank_aux_seqZ : forall n m prev v,
+  rank_aux m prev (seqZ v n) = bz (m - prev) n - bz (m + 1 - v) n.
+Proof.
+  induction n; intros m prev v.
+  - cbn [seqZ rank_aux]. rewrite !bz_0. reflexivity.
+  - cbn [seqZ]. rewrite rank_aux_cons, seqZ_length, IHn.
+    replace (m + 1 - (v + 1)) with (m - v) by lia. lia.
+Qed.
+
+Lemma rank_aux_app m : forall p prev l l', length l = length l' ->
+  rank_aux m prev (p ++ l) - rank_aux m prev (p ++ l')
+  = rank_aux m (last p prev) l - rank_aux m (last p prev) l'.
+Proof.
+  induction p as [|x p IH]; intros prev l l' Hl.
+  - reflexivity.
+  - rewrite last_cons. cbn [app]. rewrite !rank_aux_cons, !app_length, Hl.
+    specialize (IH x l l' Hl). lia.
+Qed.
+
+Lemma rank_first m k : rank m (first_comb k) = 0.
+Proof.
+  unfold rank, first_comb. rewrite rank_aux_seqZ.
+  replace (m - -1) with (m + 1 - 0) by lia. lia.
+Qed.
+
+Definition last_comb (m : Z) (k : nat) : list Z := seqZ (m - Z.of_nat k + 1) k.
+
+Lemma rank_last m k : rank m (last_comb m k) = bz (m + 1) k - 1.
+Proof.
+  unfold rank, last_comb. rewrite rank_aux_seqZ.
+  replace (m - -1) with (m + 1) by lia.
+  replace (m + 1 - (m - Z.of_nat k + 1)) with (Z.of_nat k) by lia.
+  now rewrite bz_diag.
+Qed.
+
+Lemma rank_bounds m s : Valid m s -> 0 <= rank m s < bz (m + 1) (length s).
+Proof.
+  intro H. pose proof (rank_aux_bounds _ _ _ H) as B.
+  replace (m - -1) with (m + 1) in B by lia. exact B.
+Qed.
+
+Lemma rank_inj m s t :
+  Valid m s -> Valid m t -> length s = length t -> rank m s = rank m t -> s = t.
+Proof. apply rank_aux_inj. Qed.
+
+Lemma rank_lex m s t : Valid m s -> Valid m t -> lex s t -> rank m s < rank m t.
+Proof. intros Hs Ht L. now apply rank_lex_mono. Qed.
+
+Lemma rank_lex_iff m s t : Valid m s -> Valid m t -> length s = length t ->
+  (lex s t <-> rank m s < rank m t).
+Proof.
+  intros Hs Ht Hl. split; [now apply rank_lex|].
+  intro R. destruct (lex_total s t Hl) as [L | [L | L]]; [assumption | subst; lia |].
+  pose proof (rank_lex _ _ _ Ht Hs L). lia.
+Qed.
+
+Lemma first_comb_valid m k : Z.of_nat k <= m + 1 -> Valid m (first_comb k).
+Proof. intro. apply Inc_seqZ; lia. Qed.
+
+Lemma last_comb_valid m k : Z.of_nat k <= m + 1 -> Valid m (last_comb m k).
+Proof. intro. apply Inc_seqZ; lia. Qed.
+
+(** * 4. next *)
+
+Lemma rev_seqZ_S v n : rev (seqZ v (S n)) = (v + Z.of_nat n) :: rev (seqZ v n).
+Proof. rewrite seqZ_snoc, rev_app_distr. reflexivity. Qed.
+
+(** The odometer carry: the [j] last positions are at their maximum, position
+    [x] has room; the result re-seeds the tail from [x+1]. *)
+Lemma next_rev_carry m : forall j d x rp,
+  x + 1 <= m - d - Z.of_nat j ->
+  next_rev m d (rev (seqZ (m - d - Z.of_nat j + 1) j) ++ x :: rp)
+  = (true, rev (seqZ (x + 1) (S j)) ++ rp).
+Proof.
+  induction j; intros d x rp Hx.
+  - cbn [seqZ rev app next_rev]. replace (x + 1 <=? m - d) with true by lia. reflexivity.
+  - rewrite rev_seqZ_S. cbn [app next_rev].
+    replace (m - d - Z.of_nat (S j) + 1 + Z.of_nat j + 1 <=? m - d) with false by lia.
+    replace (m - d - Z.of_nat (S j) + 1) with (m - (d + 1) - Z.of_nat j + 1) by lia.
+    rewrite IHj by lia.
+    rewrite (rev_seqZ_S (x + 1) (S j)), (rev_seqZ_S (x + 1) j). cbn [app hd].
+    do 2 f_equal. lia.
+Qed.
+
+Lemma next_rev_last m : forall j d,
+  next_rev m d (rev (seqZ (m - d - Z.of_nat j + 1) j))
+  = (false, rev (seqZ (m - d - Z.of_nat j + 2) j)).
+Proof.
+  induction j; intro d.
+  - reflexivity.
+  - rewrite !rev_seqZ_S. cbn [next_rev].
+    replace (m - d - Z.of_nat (S j) + 1 + Z.of_nat j + 1 <=? m - d) with false by lia.
+    replace (m - d - Z.of_nat (S j) + 1) with (m - (d + 1) - Z.of_nat j + 1) by lia.
+    rewrite IHj.
+    replace (m - (d + 1) - Z.of_nat j + 2) with (m - d - Z.of_nat (S j) + 2) by lia.
+    do 2 f_equal. lia.
+Qed.
+
+Lemma next_carry m p x j : x + 1 <= m - Z.of_nat j ->
+  next m (p ++ x :: seqZ (m - Z.of_nat j + 1) j) = (true, p ++ seqZ (x + 1) (S j)).
+Proof.
+  intro Hx. unfold next. rewrite rev_app_distr. cbn [rev]. rewrite <- app_assoc. cbn [app].
+  replace (m - Z.of_nat j + 1) with (m - 0 - Z.of_nat j + 1) by lia.
+  rewrite next_rev_carry by lia.
+  now rewrite rev_app_distr, !rev_involutive.
+Qed.
+
+(** On the last tuple (and on the empty one) [next] reports exhaustion; the
+    slice is left with every element incremented, as in the Go loop. *)
+Lemma next_last m k : next m (last_comb m k) = (false, seqZ (m - Z.of_nat k + 2) k).
+Proof.
+  unfold next, last_comb.
+  replace (m - Z.of_nat k + 1) with (m - 0 - Z.of_nat k + 1) by lia.
+  rewrite next_rev_last, rev_involutive. do 2 f_equal. lia.
+Qed.
+
+(** Every valid tuple is the last one or has a carry position. *)
+Lemma Inc_decomp : forall s lo m, Inc lo m s ->
+  s = seqZ (m - Z.of_nat (length s) + 1) (length s) \/
+  exists p x j, s = p ++ x :: seqZ (m - Z.of_nat j + 1) j /\ x + 1 <= m - Z.of_nat j.
+Proof.
+  induction s as [|v t IH]; intros lo m H; [left; reflexivity|].
+  pose proof (Inc_len _ _ _ _ H) as Hlen. destruct H as (Hv & Ht).
+  destruct (IH _ _ Ht) as [E | (p & x & j & E & Hx)].
+  - destruct (Z.eq_dec v (m - Z.of_nat (length t))) as [Ev | Nv].
+    + left. cbn [length seqZ]. f_equal; [lia|].
+      replace (m - Z.of_nat (S (length t)) + 1 + 1) with (m - Z.of_nat (length t) + 1) by lia.
+      exact E.
+    + right. exists [], v, (length t). cbn [app]. split; [now rewrite <- E | lia].
+  - right. exists (v :: p), x, j. split; [now rewrite E | assumption].
+Qed.
+
+Lemma rank_carry m prev x j : prev < x -> x + 1 <= m - Z.of_nat j ->
+  rank_aux m prev (seqZ (x + 1) (S j))
+  = rank_aux m prev (x :: seqZ (m - Z.of_nat j + 1) j) + 1.
+Proof.
+  intros Hp Hx. rewrite rank_aux_cons, !rank_aux_seqZ, seqZ_length.
+  replace (m + 1 - (m - Z.of_nat j + 1)) with (Z.of_nat j) by lia. rewrite bz_diag.
+  pose proof (bz_pascal (m - x) j ltac:(lia)) as P.
+  replace (m - x + 1) with (m + 1 - x) in P by lia.
+  replace (m + 1 - (x + 1)) with (m - x) by lia. lia.
+Qed.
+
+(** Main step lemma: on a valid tuple that is not the last one, [next]
+    succeeds, stays valid, keeps the length, and increments the rank. *)
+Lemma next_step m s : Valid m s -> s <> last_comb m (length s) ->
+  exists s', next m s = (true, s') /\ Valid m s' /\ length s' = length s /\
+             rank m s' = rank m s + 1.
+Proof.
+  intros H Hnl. destruct (Inc_decomp _ _ _ H) as [E | (p & x & j & E & Hx)];
+    [now elim Hnl|].
+  subst s. exists (p ++ seqZ (x + 1) (S j)). split; [now apply next_carry|].
+  unfold Valid in *. apply Inc_app in H. destruct H as (Hp & Hq).
+  destruct Hq as (Hlx & _).
+  split; [|split].
+  - apply Inc_app. split; [assumption|]. apply Inc_seqZ; lia.
+  - rewrite !app_length. cbn [length]. now rewrite !seqZ_length.
+  - unfold rank.
+    pose proof (rank_aux_app m p (-1) (seqZ (x + 1) (S j))
+                  (x :: seqZ (m - Z.of_nat j + 1) j)) as A.
+    rewrite rank_carry in A by lia. cbn [length] in A. rewrite !seqZ_length in A.
+    specialize (A eq_refl). lia.
+Qed.
+
+Lemma next_true m s s' : Valid m s -> next m s = (true, s') ->
+  Valid m s' /\ length s' = length s /\ rank m s' = rank m s + 1 /\
+  s <> last_comb m (length s).
+Proof.
+  intros H N.
+  assert (Hnl : s <> last_comb m (length s)).
+  { intro E. rewrite E, next_last in N. discriminate. }
+  destruct (next_step m s H Hnl) as (s1 & N1 & ?). rewrite N in N1.
+  injection N1 as <-. tauto.
+Qed.
+
+Lemma next_false m s r : Valid m s -> next m s = (false, r) -> s = last_comb m (length s).
+Proof.
+  intros H N. destruct (Inc_decomp _ _ _ H) as [E | (p & x & j & E & Hx)]; [exact E|].
+  subst s. rewrite next_carry in N by assumption. discriminate.
+Qed.
+
+(** [next] is the lexicographic successor among valid tuples of that length. *)
+Lemma next_succ m s s' : Valid m s -> next m s = (true, s') ->
+  Valid m s' /\ length s' = length s /\ lex s s' /\
+  forall t, Valid m t -> length t = length s -> ~ (lex s t /\ lex t s').
+Proof.
+  intros H N. destruct (next_true _ _ _ H N) as (V' & L' & R & _).
+  split; [assumption|]. split; [assumption|]. split.
+  - apply (rank_lex_iff m); auto; lia.
+  - intros t Vt Lt (L1 & L2).
+    pose proof (rank_lex _ _ _ H Vt L1). pose proof (rank_lex _ _ _ Vt V' L2). lia.
+Qed.
+
+(** * 5. Enumeration: the i-th visited combination has ID i *)
+
+Fixpoint nth_comb (m : Z) (i : nat) (s : list Z) : option (list Z) :=
+  match i with
+  | O => Some s
+  | S i' => let '(more, s') := next m s in if more then nth_comb m i' s' else None
+  end.
+
+Lemma nth_comb_from m : forall i s, Valid m s ->
+  rank m s + Z.of_nat i < bz (m + 1) (length s) ->
+  exists s', nth_comb m i s = Some s' /\ Valid m s' /\ length s' = length s /\
+             rank m s' = rank m s + Z.of_nat i.
+Proof.
+  induction i; intros s V B.
+  - exists s. cbn [nth_comb]. repeat split; auto; lia.
+  - assert (Hnl : s <> last_comb m (length s)).
+    { intro E. pose proof (rank_last m (length s)) as R. rewrite <- E in R. lia. }
+    destruct (next_step m s V Hnl) as (s1 & N & V1 & L1 & R1).
+    destruct (IHi s1 V1) as (s' & N' & V' & L' & R'); [rewrite L1; lia|].
+    exists s'. cbn [nth_comb]. rewrite N. repeat split; auto; try congruence; lia.
+Qed.
+
+Lemma nth_comb_sound m : forall i s s', Valid m s -> nth_comb m i s = Some s' ->
+  Valid m s' /\ length s' = length s /\ rank m s' = rank m s + Z.of_nat i.
+Proof.
+  induction i; intros s s' V N; cbn [nth_comb] in N.
+  - injection N as <-. repeat split; auto; lia.
+  - destruct (next m s) as [[|] s1] eqn:E; [|discriminate].
+    destruct (next_true _ _ _ V E) as (V1 & L1 & R1 & _).
+    destruct (IHi _ _ V1 N) as (V' & L' & R'). repeat split; auto; try congruence; lia.
+Qed.
+
+(** Walking from the first combination: step [i] exists exactly for
+    [i < C(m+1,k)] and carries ID [i]. *)
+Lemma rank_enum m k i : Z.of_nat k <= m + 1 ->
+  (Z.of_nat i < bz (m + 1) k ->
+     exists s, nth_comb m i (first_comb k) = Some s /\ Valid m s /\ length s = k /\
+               rank m s = Z.of_nat i) /\
+  (bz (m + 1) k <= Z.of_nat i -> nth_comb m i (first_comb k) = None).
+Proof.
+  intro Hk. pose proof (first_comb_valid m k Hk) as V.
+  assert (Lf : length (first_comb k) = k) by apply seqZ_length.
+  split.
+  - intro B. destruct (nth_comb_from m i _ V) as (s & N & Vs & Ls & Rs).
+    + rewrite rank_first, Lf. lia.
+    + exists s. rewrite rank_first in Rs. repeat split; auto; congruence.
+  - intro B. destruct (nth_comb m i (first_comb k)) as [s|] eqn:N; [|reflexivity].
+    destruct (nth_comb_sound _ _ _ _ V N) as (Vs & Ls & Rs).
+    pose proof (rank_bounds _ _ Vs). rewrite rank_first in Rs. rewrite Ls, Lf in *. lia.
+Qed.
+
+(** rank is onto [0, C(m+1,k)). *)
+Lemma rank_surj m k id : Z.of_nat k <= m + 1 -> 0 <= id < bz (m + 1) k ->
+  exists s, Valid m s /\ length s = k /\ rank m s = id.
+Proof.
+  intros Hk B. destruct (proj1 (rank_enum m k (Z.to_nat id) Hk)) as (s & _ & V & L & R);
+    [lia|]. exists s. repeat split; auto; lia.
+Qed.
+
+Lemma next_step_rank m s : Valid m s -> rank m s + 1 < bz (m + 1) (length s) ->
+  exists s', next m s = (true, s') /\ Valid m s' /\ length s' = length s /\
+             rank m s' = rank m s + 1.
+Proof.
+  intros V B. apply next_step; [assumption|].
+  intro E. pose proof (rank_last m (length s)) as R. rewrite <- E in R. lia.
+Qed.
+
+(** * 6. The uint64 arithmetic: rank64, amount64 *)
+
+Lemma rank64_aux_spec m : m + 1 < I63 ->
+  forall s prev p64 acc, -1 <= prev -> p64 = prev mod W64 -> 0 <= acc < W64 ->
+  Inc prev m s ->
+  rank64_aux m p64 s acc = (acc + rank_aux m prev s) mod W64.
+Proof.
+  intros Hm. pose proof W64_val as HW. unfold I63 in Hm.
+  induction s as [|v t IH]; intros prev p64 acc Hp E Hacc H.
+  - cbn [rank64_aux rank_aux]. rewrite Z.add_0_r, Z.mod_small; lia.
+  - destruct H as (Hv & Ht). rewrite rank_aux_cons. cbn [rank64_aux length].
+    subst p64. rewrite !wrap64_mod.
+    replace ((m + 1 - prev mod W64 - 1) mod W64) with (m - prev).
+    2:{ replace (m + 1 - prev mod W64 - 1) with (m - prev mod W64) by lia.
+        rewrite Zminus_mod_idemp_r. rewrite Z.mod_small; lia. }
+    rewrite (Z.mod_small (m + 1 - v)) by lia.
+    rewrite !binom64_mod by (unfold I63; lia). rewrite Nat2Z.id.
+    fold (bz (m - prev) (S (length t))). fold (bz (m + 1 - v) (S (length t))).
+    rewrite <- Zminus_mod, Zplus_mod_idemp_r.
+    rewrite (IH v v _ ltac:(lia) ltac:(rewrite Z.mod_small; lia)
+               ltac:(apply Z.mod_pos_bound; lia) Ht).
+    rewrite Zplus_mod_idemp_l. f_equal. lia.
+Qed.
+
+Lemma rank64_mod m s : Valid m s -> m + 1 < I63 -> rank64 m s = rank m s mod W64.
+Proof.
+  intros V Hm. unfold rank64, rank.
+  rewrite (rank64_aux_spec m Hm s (-1) (W64 - 1) 0); try reflexivity; try assumption; try lia.
+  rewrite W64_val. lia.
+Qed.
+
+Lemma rank64_exact m s : Valid m s -> m + 1 < I63 -> bz (m + 1) (length s) < W64 ->
+  rank64 m s = rank m s.
+Proof.
+  intros V Hm B. rewrite rank64_mod by assumption.
+  pose proof (rank_bounds _ _ V). apply Z.mod_small. lia.
+Qed.
+
+Lemma amount64_mod m k : 0 <= m + 1 < I63 -> amount64 m k = bz (m + 1) k mod W64.
+Proof.
+  intros Hm. unfold amount64. pose proof W64_val. unfold I63 in *.
+  rewrite wrap64_mod, Z.mod_small by lia.
+  rewrite binom64_mod by (unfold I63; lia). now rewrite Nat2Z.id.
+Qed.
+
+Lemma amount64_exact m k : 0 <= m + 1 < I63 -> bz (m + 1) k < W64 ->
+  amount64 m k = bz (m + 1) k.
+Proof.
+  intros Hm B. rewrite amount64_mod by assumption. apply Z.mod_small.
+  pose proof (bz_nonneg (m + 1) k). lia.
+Qed.
+
+(** * 7. seek (setCombinationID): the N-section search terminates and is exact *)
+
+Lemma seek_0 m id : seek m 0 id = Ok [].
+Proof. reflexivity. Qed.
+
+Lemma set_series_app m p l v : l <> [] -> v + Z.of_nat (length l) <= m + 1 ->
+  set_series m (length p) v (p ++ l) = Ok (p ++ seqZ v (length l)).
+Proof.
+  intros Hl Hv. unfold set_series.
+  rewrite firstn_app, firstn_all, Nat.sub_diag, firstn_O, app_nil_r, app_length.
+  replace (length p + length l - length p)%nat with (length l) by lia.
+  destruct l as [|y l]; [congruence|]. cbn [length] in *.
+  rewrite rev_app_distr, rev_seqZ_S. cbn [app].
+  replace (m <? v + Z.of_nat (length l)) with false by lia. reflexivity.
+Qed.
+
+(** Soundness needs nothing: whatever [seek] returns has the requested ID. *)
+Lemma seek_loop_sound m id : forall fuel idx s r,
+  seek_loop fuel m id idx s = Ok r -> rank64 m r = id.
+Proof.
+  induction fuel; intros idx s r H; cbn [seek_loop] in H; [discriminate|].
+  destruct (rank64 m s =? id) eqn:E.
+  - injection H as <-. lia.
+  - destruct (nth_error s idx); [|discriminate].
+    destruct (id <? rank64 m s);
+      (destruct (set_series m idx _ s); cbn [bind] in H; try discriminate; eauto).
+Qed.
+
+Lemma seek_sound m k id r : (1 <= k)%nat -> seek m k id = Ok r -> rank64 m r = id.
+Proof.
+  intros Hk H. destruct k; [lia|]. unfold seek in H.
+  destruct (set_series m 0 0 (repeat 0 (S k))); cbn [bind] in H; try discriminate.
+  eapply seek_loop_sound; eassumption.
+Qed.
+
+Section Seek.
+  Variables (m id : Z) (t : list Z).
+  Hypothesis Hm : m + 1 < I63.
+  Hypothesis Vt : Valid m t.
+  Hypothesis Bt : bz (m + 1) (length t) < W64.
+  Hypothesis Rt : rank m t = id.
+
+  Lemma seek_loop_ok : forall fuel p v tl,
+    t = p ++ tl -> tl <> [] -> last p (-1) < v <= hd 0 tl ->
+    (Z.to_nat (m - v) + 2 * length tl + 1 <= fuel)%nat ->
+    seek_loop fuel m id (length p) (p ++ seqZ v (length tl)) = Ok t.
+  Proof.
+    induction fuel as [fuel IH] using lt_wf_ind. intros p v tl E Hne Hv Hf.
+    destruct fuel as [|f]; [lia|].
+    destruct tl as [|u tl2]; [congruence|]. cbn [hd length] in *.
+    pose proof Vt as Vt'. unfold Valid in Vt'. rewrite E in Vt'.
+    apply Inc_app in Vt'. destruct Vt' as (Vp & Vtl).
+    pose proof (Inc_len _ _ _ _ Vtl) as Hlen. destruct Vtl as (Hu & Vtl2).
+    assert (Lt : length t = (length p + S (length tl2))%nat)
+      by (rewrite E, app_length; reflexivity).
+    (* facts about any candidate p ++ seqZ w (S |tl2|) *)
+    assert (Cand : forall w, last p (-1) < w -> w + Z.of_nat (length tl2) <= m ->
+              Valid m (p ++ seqZ w (S (length tl2))) /\
+              rank64 m (p ++ seqZ w (S (length tl2))) = rank m (p ++ seqZ w (S (length tl2)))).
+    { intros w Hw1 Hw2.
+      assert (V : Valid m (p ++ seqZ w (S (length tl2)))).
+      { apply Inc_app. split; [assumption|]. apply Inc_seqZ; lia. }
+      split; [assumption|]. apply rank64_exact; try assumption.
+      rewrite app_length, seqZ_length, <- Lt. assumption. }
+    assert (Lc : forall w, length (p ++ seqZ w (S (length tl2))) = length t).
+    { intro w. now rewrite app_length, seqZ_length. }
+    set (s := p ++ seqZ v (S (length tl2))).
+    destruct (Cand v ltac:(lia) ltac:(lia)) as (Vs & R64s). fold s in Vs, R64s.
+    assert (Ord : s = t \/ lex s t).
+    { subst s. rewrite E. destruct (Z.eq_dec v u) as [->|Nvu].
+      - destruct (seqZ_least _ _ _ Vtl2) as [E2 | L2].
+        + left. cbn [seqZ]. now rewrite <- E2.
+        + right. apply lex_app. cbn [seqZ]. now apply lex_tail.
+      - right. apply lex_app. cbn [seqZ]. apply lex_head; [lia|]. apply seqZ_length. }
+    cbn [seek_loop]. rewrite R64s.
+    destruct (rank m s =? id) eqn:Eq.
+    { f_equal. apply (rank_inj m); try assumption; [apply Lc | lia]. }
+    destruct Ord as [Es | Ls]; [rewrite Es in Eq; lia|].
+    pose proof (rank_lex _ _ _ Vs Vt Ls) as Rlt.
+    assert (Nth : forall w, nth_error (p ++ seqZ w (S (length tl2))) (length p) = Some w).
+    { intro w. rewrite nth_error_app2, Nat.sub_diag by lia. reflexivity. }
+    unfold s at 1. rewrite Nth.
+    replace (id <? rank m s) with false by lia.
+    assert (SS : forall w w', w' + Z.of_nat (length tl2) <= m ->
+              set_series m (length p) w' (p ++ seqZ w (S (length tl2)))
+              = Ok (p ++ seqZ w' (S (length tl2)))).
+    { intros w w' Hw. rewrite set_series_app; rewrite ?seqZ_length; try lia; [reflexivity|].
+      cbn [seqZ]. discriminate. }
+    destruct (Z.eq_dec v u) as [Evu|Nvu].
+    - (* at the target value of this position: overshoot, come back, descend *)
+      subst v.
+      assert (Ntop : tl2 <> seqZ (u + 1) (length tl2)).
+      { intro E2. apply (lex_irrefl t). replace t with s at 1; [exact Ls|].
+        unfold s. rewrite E. cbn [seqZ]. now rewrite <- E2. }
+      assert (Hroom : u + Z.of_nat (length tl2) < m).
+      { destruct (Z_lt_le_dec (u + Z.of_nat (length tl2)) m) as [?|Hge]; [assumption|].
+        elim Ntop. apply (Inc_top _ _ m); assumption. }
+      assert (Hne2 : tl2 <> []) by (intro E2; apply Ntop; now rewrite E2).
+      unfold s. rewrite SS by lia. cbn [bind].
+      destruct f as [|f']; [lia|]. cbn [seek_loop].
+      destruct (Cand (u + 1) ltac:(lia) ltac:(lia)) as (Vs' & R64s').
+      set (s' := p ++ seqZ (u + 1) (S (length tl2))) in *.
+      assert (Ls' : lex t s').
+      { subst s'. rewrite E. apply lex_app. cbn [seqZ]. apply lex_head; [lia|].
+        now rewrite seqZ_length. }
+      pose proof (rank_lex _ _ _ Vt Vs' Ls') as Rgt.
+      rewrite R64s'. replace (rank m s' =? id) with false by lia.
+      unfold s' at 1. rewrite Nth. replace (id <? rank m s') with true by lia.
+      unfold s'. rewrite SS by lia. cbn [bind].
+      replace (u + 1 - 1) with u by lia.
+      replace (p ++ seqZ u (S (length tl2))) with ((p ++ [u]) ++ seqZ (u + 1) (length tl2))
+        by (rewrite <- app_assoc; reflexivity).
+      replace (S (length p)) with (length (p ++ [u])) by (rewrite app_length; cbn; lia).
+      apply (IH f' ltac:(lia)).
+      + rewrite <- app_assoc. exact E.
+      + assumption.
+      + rewrite last_last. destruct tl2 as [|y tl3]; [congruence|]. cbn [hd].
+        destruct Vtl2 as (Hy & _). lia.
+      + lia.
+    - (* still left of the target value: move right *)
+      unfold s. rewrite SS by lia. cbn [bind].
+      apply (IH f ltac:(lia) p (v + 1) (u :: tl2)); try assumption; cbn [hd length]; lia.
+  Qed.
+End Seek.
+
+Theorem seek_ok m k id : (1 <= k)%nat -> Z.of_nat k <= m + 1 -> m + 1 < I63 ->
+  bz (m + 1) k < W64 -> 0 <= id < bz (m + 1) k ->
+  exists s, seek m k id = Ok s /\ Valid m s /\ length s = k /\ rank m s = id.
+Proof.
+  intros Hk1 Hk Hm Bk Hid.
+  destruct (rank_surj m k id Hk Hid) as (t & Vt & Lt & Rt).
+  exists t. repeat split; try assumption.
+  destruct k as [|k']; [lia|]. unfold seek.
+  pose proof (set_series_app m [] (repeat 0 (S k')) 0) as SS.
+  rewrite repeat_length in SS. cbn [length app] in SS.
+  rewrite SS by (cbn [repeat]; (discriminate || lia)). cbn [bind].
+  destruct t as [|u tl]; [discriminate|].
+  replace (seqZ 0 (S k')) with ([] ++ seqZ 0 (length (u :: tl)))
+    by (rewrite Lt; reflexivity).
+  apply (seek_loop_ok m id (u :: tl) Hm Vt ltac:(rewrite Lt; exact Bk) Rt
+           (seek_fuel m (S k')) [] 0 (u :: tl)).
+  - reflexivity.
+  - discriminate.
+  - cbn [last hd]. destruct Vt. lia.
+  - unfold seek_fuel. rewrite Lt. lia.
+Qed.
+
+(** * 8. Applying a combination: flips *)
+
+Definition memZ (x : Z) (s : list Z) : bool := if in_dec Z.eq_dec x s then true else false.
+
+Lemma memZ_cons x i t : memZ x (i :: t) = (x =? i) || memZ x t.
+Proof.
+  unfold memZ. destruct (in_dec Z.eq_dec x (i :: t)) as [H|H];
+    destruct (in_dec Z.eq_dec x t) as [H'|H']; destruct (Z.eqb_spec x i) as [E|E];
+    cbn [orb]; try reflexivity; exfalso.
+  - destruct H; [congruence | contradiction].
+  - apply H. now right.
+  - apply H. now right.
+  - apply H. left. congruence.
+Qed.
+
+Lemma memZ_In x s : memZ x s = true <-> In x s.
+Proof. unfold memZ. destruct (in_dec Z.eq_dec x s); split; (congruence || tauto). Qed.
+
+Lemma upd_spec {A} (f : A -> A) : forall l i, (i < length l)%nat ->
+  exists l', upd i f l = Some l' /\ length l' = length l /\
+    forall j d, nth j l' d = if (j =? i)%nat then f (nth j l d) else nth j l d.
+Proof.
+  induction l as [|x l IH]; intros i Hi; cbn [length] in Hi; [lia|].
+  destruct i as [|i].
+  - exists (f x :: l). cbn [upd]. repeat split. intros [|j] d; reflexivity.
+  - destruct (IH i ltac:(lia)) as (l' & U & L & N). exists (x :: l'). cbn [upd]. rewrite U.
+    repeat split; [cbn [length]; congruence|]. intros [|j] d; [reflexivity|].
+    cbn [nth]. rewrite N. reflexivity.
+Qed.
+
+Lemma upd_Forall {A} (P : A -> Prop) (f : A -> A) : (forall x, P x -> P (f x)) ->
+  forall l i l', upd i f l = Some l' -> Forall P l -> Forall P l'.
+Proof.
+  intros Hf. induction l as [|x l IH]; intros i l' U F; [destruct i; discriminate|].
+  inversion F; subst. destruct i as [|i]; cbn [upd] in U.
+  - injection U as <-. constructor; auto.
+  - destruct (upd i f l) as [t'|] eqn:E; [|discriminate]. injection U as <-.
+    constructor; eauto.
+Qed.
+
+(** ** bools *)
+
+Lemma flip_bools_spec : forall s v,
+  NoDup s -> Forall (fun i => 0 <= i < Z.of_nat (length v)) s ->
+  exists v', flip_bools s v = Ok v' /\ length v' = length v /\
+    forall j, (j < length v)%nat ->
+      nth j v' false = if in_dec Z.eq_dec (Z.of_nat j) s then negb (nth j v false)
+                       else nth j v false.
+Proof.
+  induction s as [|i t IH]; intros v ND R.
+  - exists v. repeat split.
+  - inversion ND as [|? ? Hni NDt]; subst. inversion R as [|? ? Hi Rt]; subst.
+    destruct (upd_spec negb v (Z.to_nat i) ltac:(lia)) as (v1 & U & L1 & N1).
+    destruct (IH v1 NDt) as (v' & F & L' & N'); [now rewrite L1|].
+    exists v'. cbn [flip_bools]. replace (i <? 0) with false by lia. rewrite U.
+    split; [exact F|]. split; [congruence|]. intros j Hj.
+    rewrite N' by lia. rewrite N1.
+    destruct (in_dec Z.eq_dec (Z.of_nat j) (i :: t)) as [H|H];
+      destruct (in_dec Z.eq_dec (Z.of_nat j) t) as [H'|H'];
+      destruct (Nat.eqb_spec j (Z.to_nat i)) as [E|E]; try reflexivity; exfalso.
+    + apply Hni. replace i with (Z.of_nat j) by lia. assumption.
+    + destruct H as [H|H]; [lia | contradiction].
+    + apply H. now right.
+    + apply H. now right.
+    + apply H. left. lia.
+Qed.
+
+Lemma flip_bools_invol s v v' :
+  NoDup s -> Forall (fun i => 0 <= i < Z.of_nat (length v)) s ->
+  flip_bools s v = Ok v' -> flip_bools s v' = Ok v.
+Proof.
+  intros ND R F. destruct (flip_bools_spec s v ND R) as (w & F1 & L1 & N1).
+  rewrite F in F1. injection F1 as <-.
+  destruct (flip_bools_spec s v' ND) as (w & F2 & L2 & N2); [now rewrite L1|].
+  rewrite F2. f_equal. apply (nth_ext _ _ false false); [congruence|].
+  intros j Hj. rewrite N2, N1 by lia.
+  destruct (in_dec Z.eq_dec (Z.of_nat j) s); [apply negb_involutive | reflexivity].
+Qed.
+
+(** ** bytes *)
+
+Lemma flip_bit_testbit bit x b : 0 <= bit -> 0 <= b ->
+  Z.testbit (flip_bit bit x) b = xorb (Z.testbit x b) (b =? bit).
+Proof.
+  intros Hbit Hb. unfold flip_bit. rewrite Z.lxor_spec, Z.shiftl_1_l, Z.pow2_bits_eqb by lia.
+  f_equal. lia.
+Qed.
+
+Definition is_byte (x : Z) : Prop := 0 <= x < 256.
+
+Lemma flip_bit_byte bit x : 0 <= bit < 8 -> is_byte x -> is_byte (flip_bit bit x).
+Proof.
+  unfold is_byte, flip_bit. intros Hbit Hx. rewrite Z.shiftl_1_l.
+  assert (H2 : 0 <= 2 ^ bit < 256).
+  { split; [apply Z.pow_nonneg; lia|]. change 256 with (2 ^ 8). apply Z.pow_lt_mono_r; lia. }
+  split; [apply Z.lxor_nonneg; lia|].
+  assert (S0 : Z.shiftr (Z.lxor x (2 ^ bit)) 8 = 0).
+  { rewrite Z.shiftr_lxor, !Z.shiftr_div_pow2 by lia. change (2 ^ 8) with 256.
+    rewrite !Z.div_small by lia. reflexivity. }
+  rewrite Z.shiftr_div_pow2 in S0 by lia. change (2 ^ 8) with 256 in S0.
+  assert (0 <= Z.lxor x (2 ^ bit)) by (apply Z.lxor_nonneg; lia).
+  pose proof (Z.div_mod (Z.lxor x (2 ^ bit)) 256 ltac:(lia)).
+  pose proof (Z.mod_pos_bound (Z.lxor x (2 ^ bit)) 256 ltac:(lia)). lia.
+Qed.
+
+Lemma shiftr3 i : Z.shiftr i 3 = i / 8.
+Proof. rewrite Z.shiftr_div_pow2 by lia. reflexivity. Qed.
+Lemma land7 i : Z.land i 7 = i mod 8.
+Proof. change 7 with (Z.ones 3). rewrite Z.land_ones by lia. reflexivity. Qed.
+
+Lemma flip_bytes_spec : forall s v,
+  NoDup s -> Forall (fun i => 0 <= i < 8 * Z.of_nat (length v)) s ->
+  exists v', flip_bytes s v = Ok v' /\ length v' = length v /\
+    (Forall is_byte v -> Forall is_byte v') /\
+    forall j b, (j < length v)%nat -> 0 <= b ->
+      Z.testbit (nth j v' 0) b
+      = xorb (Z.testbit (nth j v 0) b) ((b <? 8) && memZ (8 * Z.of_nat j + b) s).
+Proof.
+  induction s as [|i t IH]; intros v ND R.
+  - exists v. repeat split; [auto|]. intros j b _ _. cbn. now rewrite andb_false_r, xorb_false_r.
+  - inversion ND as [|? ? Hni NDt]; subst. inversion R as [|? ? Hi Rt]; subst.
+    pose proof (Z.div_mod i 8 ltac:(lia)) as DM.
+    pose proof (Z.mod_pos_bound i 8 ltac:(lia)) as MB.
+    destruct (upd_spec (flip_bit (i mod 8)) v (Z.to_nat (i / 8)) ltac:(lia)) as (v1 & U & L1 & N1).
+    destruct (IH v1 NDt) as (v' & F & L' & B' & N'); [now rewrite L1|].
+    exists v'. cbn [flip_bytes]. replace (i <? 0) with false by lia.
+    rewrite shiftr3, land7, U.
+    split; [exact F|]. split; [congruence|]. split.
+    { intro Bv. apply B'. eapply upd_Forall; [|exact U|exact Bv].
+      intros x Hx. apply flip_bit_byte; [lia | assumption]. }
+    intros j b Hj Hb. rewrite N' by lia. rewrite N1, memZ_cons.
+    destruct (Nat.eqb_spec j (Z.to_nat (i / 8))) as [Ej|Ej].
+    + rewrite flip_bit_testbit by lia.
+      destruct (Z.eqb_spec b (i mod 8)) as [Eb|Eb].
+      * replace (8 * Z.of_nat j + b =? i) with true by lia.
+        replace (b <? 8) with true by lia. cbn [orb andb].
+        destruct (memZ (8 * Z.of_nat j + b) t) eqn:M.
+        { apply memZ_In in M. replace (8 * Z.of_nat j + b) with i in M by lia. contradiction. }
+        now rewrite xorb_false_r.
+      * replace (8 * Z.of_nat j + b =? i) with false by lia. cbn [orb].
+        now rewrite xorb_false_r.
+    + destruct (b <? 8) eqn:Eb8; cbn [andb]; [|reflexivity].
+      replace (8 * Z.of_nat j + b =? i) with false by lia. reflexivity.
+Qed.
+
+Lemma flip_bytes_invol s v v' :
+  NoDup s -> Forall (fun i => 0 <= i < 8 * Z.of_nat (length v)) s ->
+  flip_bytes s v = Ok v' -> flip_bytes s v' = Ok v.
+Proof.
+  intros ND R F. destruct (flip_bytes_spec s v ND R) as (w & F1 & L1 & _ & N1).
+  rewrite F in F1. injection F1 as <-.
+  destruct (flip_bytes_spec s v' ND) as (w & F2 & L2 & _ & N2); [now rewrite L1|].
+  rewrite F2. f_equal. apply (nth_ext _ _ 0 0); [congruence|].
+  intros j Hj. apply Z.bits_inj'. intros b Hb. rewrite N2, N1 by lia.
+  now rewrite xorb_assoc, xorb_nilpotent, xorb_false_r.
+Qed.
+
+(** A valid combination below the data length satisfies the flip hypotheses. *)
+Lemma Inc_lt_all : forall s lo m, Inc lo m s -> Forall (fun i => lo < i <= m) s /\ NoDup s.
+Proof.
+  intros s lo m H. apply Inc_iff in H. destruct H as (SS & F). split; [assumption|].
+  clear F. induction SS as [|x t SS IH Hx]; constructor; [|assumption].
+  intro Hin. rewrite Forall_forall in Hx. specialize (Hx _ Hin). lia.
+Qed.
+
+Lemma Valid_flip_hyps m s n : Valid m s -> m < n ->
+  NoDup s /\ Forall (fun i => 0 <= i < n) s.
+Proof.
+  intros V Hn. destruct (Inc_lt_all _ _ _ V) as (F & ND). split; [assumption|].
+  eapply Forall_impl; [|exact F]. cbn. lia.
+Qed.
+
+(** * 9. The model's [walk] (what the correspondence check runs) *)
+
+Lemma next_exhausted_iff m s : Valid m s ->
+  (fst (next m s) = false <-> s = last_comb m (length s)).
+Proof.
+  intro V. split.
+  - destruct (next m s) as [[|] r] eqn:N; cbn [fst]; [discriminate|]. intros _.
+    eapply next_false; eassumption.
+  - intro E. rewrite E, next_last. reflexivity.
+Qed.
+
+(** With enough fuel the walk from any valid state of rank [i] (counter [i])
+    visits every remaining combination, reports exhaustion, ends with the
+    counter at C(m+1,k) and never sees an ID different from the visit index. *)
+Lemma walk_from m k : m + 1 < I63 -> bz (m + 1) k < W64 ->
+  forall fuel s i h b, Valid m s -> length s = k -> rank m s = i ->
+  bz (m + 1) k - i <= Z.of_nat fuel ->
+  exists h', walk fuel m s i h b = (h', bz (m + 1) k, true, b).
+Proof.
+  intros Hm Bk. induction fuel as [|f IH]; intros s i h b V L R Hf.
+  - pose proof (rank_bounds _ _ V). rewrite L in *. lia.
+  - cbn [walk]. rewrite rank64_exact by (rewrite ?L; assumption). rewrite R.
+    replace (i =? i) with true by lia. rewrite andb_true_r.
+    destruct (next m s) as [[|] s'] eqn:N.
+    + destruct (next_true _ _ _ V N) as (V' & L' & R' & _).
+      apply IH; try assumption; try congruence; lia.
+    + apply next_false in N; [|assumption]. pose proof (rank_last m (length s)) as RL.
+      rewrite <- N, L in RL. eexists. repeat f_equal. lia.
+Qed.
+
+Lemma walk_first m k fuel h : Z.of_nat k <= m + 1 -> m + 1 < I63 -> bz (m + 1) k < W64 ->
+  bz (m + 1) k <= Z.of_nat fuel ->
+  exists h', walk fuel m (first_comb k) 0 h true = (h', bz (m + 1) k, true, true).
+Proof.
+  intros Hk Hm Bk Hf. apply (walk_from m k Hm Bk).
+  - now apply first_comb_valid.
+  - apply seqZ_length.
+  - apply rank_first.
+  - lia.
+Qed.
+
+(** * 10. Boundary witnesses *)
+
+Lemma bz_1 n : 0 <= n -> bz n 1 = n.
+Proof. intro. unfold bz. rewrite binom_1. lia. Qed.
+
+(** [maxValue = MaxInt64]: [m+1] is no longer an int64, the ID is wrong. This is
+    why the exactness theorems carry [m + 1 < 2^63]. *)
+Lemma rank64_maxint64_refuted :
+  exists m s, Valid m s /\ m + 1 = I63 /\ rank64 m s <> rank m s mod W64.
+Proof.
+  exists (I63 - 1), [1]. split; [|split].
+  - unfold Valid, I63. cbn [Inc]. lia.
+  - lia.
+  - unfold rank. rewrite rank_aux_cons. cbn [rank_aux length].
+    rewrite !bz_1 by (unfold I63; lia).
+    replace (I63 - 1 - -1 - (I63 - 1 + 1 - 1) + 0) with 1 by lia.
+    vm_compute. discriminate.
+Qed.
+
+(** C(m+1,k) >= 2^64: the reported amount is only the low 64 bits. *)
+Lemma amount_overflow_refuted :
+  exists m k, 0 <= m + 1 < I63 /\ W64 <= bz (m + 1) k /\ amount64 m k <> bz (m + 1) k.
+Proof.
+  exists 4000, 12%nat.
+  assert (E : bz (4000 + 1) 12 = 34555303426741432403417275723797000).
+  { unfold bz. rewrite <- binom_fast_Z by lia. vm_compute. reflexivity. }
+  rewrite E. split; [unfold I63; lia|]. split; [rewrite W64_val; lia|].
+  vm_compute. discriminate.
+Qed.
+
+(** [id >= amount] is outside [seek]'s contract: the search runs off the end. *)
+Lemma seek_oob_refuted :
+  exists m k id, (1 <= k)%nat /\ Z.of_nat k <= m + 1 /\ id = bz (m + 1) k /\
+                 seek m k id = Panic.
+Proof. exists 4, 3%nat, 10. repeat split; try lia. Qed.
+
+(** * 11. Examples: the hypotheses are satisfiable *)
+
+Example ex_valid : Valid 4 [0; 2; 4] /\ [0; 2; 4] <> last_comb 4 3.
+Proof. split; [unfold Valid; cbn [Inc]; lia | discriminate]. Qed.
+
+Example ex_next : next 4 [0; 2; 4] = (true, [0; 3; 4]) /\ rank 4 [0; 2; 4] = 4 /\ rank 4 [0; 3; 4] = 5.
+Proof. repeat split. Qed.
+
+Example ex_next_last : Valid 4 (last_comb 4 3) /\ next 4 [2; 3; 4] = (false, [3; 4; 5]).
+Proof. split; [unfold Valid; cbn; lia | reflexivity]. Qed.
+
+Example ex_seek : seek 4 3 5 = Ok [0; 3; 4] /\ 0 <= 5 < bz (4 + 1) 3 /\ bz (4 + 1) 3 < W64.
+Proof. repeat split; vm_compute; congruence. Qed.
+
+(** Beyond the 1000x10 lookup table, still within uint64. *)
+Example ex_big_bound : 4000 + 1 < I63 /\ bz (4000 + 1) 5 < W64 /\ Valid 4000 [5; 17; 1000; 1001; 4000].
+Proof.
+  split; [unfold I63; lia|]. split.
+  - unfold bz. rewrite <- binom_fast_Z by lia. vm_compute. reflexivity.
+  - unfold Valid. cbn [Inc]. lia.
+Qed.
+
+Example ex_flip_bools :
+  NoDup [0; 2] /\ Forall (fun i => 0 <= i < Z.of_nat (length [true; true; false])) [0; 2] /\
+  flip_bools [0; 2] [true; true; false] = Ok [false; true; true].
+Proof.
+  split; [repeat constructor; cbn; lia|]. split; [repeat constructor; cbn; lia | reflexivity].
+Qed.
+
+Example ex_flip_bytes :
+  NoDup [1; 9; 15] /\ Forall (fun i => 0 <= i < 8 * Z.of_nat (length [0; 255])) [1; 9; 15] /\
+  flip_bytes [1; 9; 15] [0; 255] = Ok [2; 125].
+Proof.
+  split; [repeat constructor; cbn; lia|]. split; [repeat constructor; cbn; lia | reflexivity].
+Qed.
